@@ -176,8 +176,10 @@ def main():
                 status = "inconclusive (budget exhausted, no counterexample)"
                 n_inc += 1
             elif v == "pre_unsat":
-                status = "precondition unsatisfiable"
-                engine_errors.append("%s: %s" % (cond["name"], r.get("message", "")))
+                # CrossHair reports this when no explored path got past the preconditions - also when every path ran out of
+                # time under load.  It is never counted as held; vacuity of a harness is guarded by its reachability twin.
+                status = "inconclusive (no path met the preconditions within the budget)"
+                n_inc += 1
             elif v == "refuted":
                 args = r.get("args")
                 if args is None:
